@@ -6,6 +6,7 @@ package rtcp
 import (
 	"encoding/binary"
 	"fmt"
+	"math"
 )
 
 // A FIREntry is a (SSRC, seqno) pair, as carried by FullIntraRequest.
@@ -32,6 +33,11 @@ var _ Packet = (*FullIntraRequest)(nil)
 
 // Marshal encodes the FullIntraRequest
 func (p FullIntraRequest) Marshal() ([]byte, error) {
+	// the header length field counts 32-bit words (minus one) in 16 bits
+	if p.MarshalSize() > 4*(math.MaxUint16+1) {
+		return nil, errWrongMarshalSize
+	}
+
 	rawPacket := make([]byte, firOffset+(len(p.FIR)*8))
 	binary.BigEndian.PutUint32(rawPacket, p.SenderSSRC)
 	binary.BigEndian.PutUint32(rawPacket[4:], p.MediaSSRC)
